@@ -191,3 +191,26 @@ CHECKS = {
         technique="TLA+ Load/Run refusal semantics + TLC BFS over the structured model space, replayed into NewModelFromBytes/Run, with harness-side byte perturbation sweeps",
         design_ref="DESIGN.md section 6 (C18)"),
 }
+
+# ---- additions that apply to several checks (kept in one place so the texts stay in step with bin/stages.py)
+_OPS_TRACE = (" In addition (code->spec): random invocations of these operators - shapes beyond the exhaustive bounds, random "
+              "attributes, invalid requests - are executed against the real operators, logged with arguments and outcome, and the "
+              "recorded trace is validated by TLC against Trace_Ops.tla, which recomputes the allowed outcome of every event.")
+_REUSE = (" Every case is also applied, in turn with the other cases of its (operator, attributes, input types) group, to ONE "
+          "initialised operator instance (re-use mode): state that leaks from one Apply into the next makes a later application deviate.")
+for _pid in ("C03", "C04", "C05", "C07", "C08", "C09", "C10"):
+    CHECKS[_pid]["text"] += _REUSE + _OPS_TRACE
+    CHECKS[_pid]["technique"] += "; operator instance re-use mode; trace validation of recorded random operator invocations against Trace_Ops.tla"
+for _pid in ("C06", "C11"):
+    CHECKS[_pid]["text"] += _REUSE
+    CHECKS[_pid]["technique"] += "; operator instance re-use mode"
+_RUN_TRACE = (" In addition (code->spec): random DAG programs of 4..9 nodes are loaded and run 2..3 times with fresh inputs; a recording "
+              "spy around the exported Model.GetOperator field logs, per node in execution order, the node, the tensors the interpreter "
+              "gathered for it and what the operator returned; TLC validates the trace against Trace_Run.tla (the gathered tensors are "
+              "the environment's bindings of the node's input names, the environment starts from the weights in every Run, the "
+              "returned map is the environment's value of every graph output).")
+for _pid in ("C01", "C02"):
+    CHECKS[_pid]["text"] += _RUN_TRACE
+    CHECKS[_pid]["technique"] += "; node-level trace validation of recorded random programs against Trace_Run.tla"
+CHECKS["C15"]["text"] += (" Every input list is also put through the gate of ONE shared instance per operator, in a fixed order, so that "
+                          "arity or type state kept between calls is exposed.")
